@@ -36,11 +36,13 @@ func (cache *dirCache) Store(target *core.BuildTarget, key []byte, files []strin
 	cacheDir := cache.getPath(target, key, "")
 	tmpDir := cache.getFullPath(target, key, "", "=")
 	cache.markDir(cacheDir, 0)
+	verifOp("rm-final", cacheDir)
 	if err := fs.RemoveAll(cacheDir); err != nil {
 		log.Warning("Failed to remove existing cache directory %s: %s", cacheDir, err)
 		return
 	}
 	cache.storeFiles(target, key, "", cacheDir, tmpDir, files, true)
+	verifOp("rename", tmpDir)
 	if err := os.Rename(tmpDir, cacheDir); err != nil && !os.IsNotExist(err) {
 		log.Warning("Failed to create cache directory %s: %s", cacheDir, err)
 	}
@@ -64,10 +66,12 @@ func (cache *dirCache) storeCompressed(target *core.BuildTarget, filename string
 	log.Debug("Storing %s: %s in dir cache...", target.Label, filename)
 	if err := cache.storeCompressed2(target, filename, files); err != nil {
 		log.Warning("Failed to store files in cache: %s", err)
+		verifOp("rm-failed", filename)
 		fs.RemoveAll(filename) // Just a best-effort removal at this point
 		return 0
 	}
 	// It's too hard to tell from a tar.Writer how big the resulting tarball is. Easier to just re-stat it here.
+	verifOp("stat", filename)
 	info, err := os.Stat(filename)
 	if err != nil {
 		log.Warning("Can't read stored file: %s", err)
@@ -81,6 +85,7 @@ func (cache *dirCache) storeCompressed2(target *core.BuildTarget, filename strin
 	if err := cache.ensureStoreReady(filename); err != nil {
 		return err
 	}
+	verifOp("create", filename)
 	f, err := os.Create(filename)
 	if err != nil {
 		return err
@@ -92,10 +97,12 @@ func (cache *dirCache) storeCompressed2(target *core.BuildTarget, filename strin
 	defer gw.Close()
 	tw := tar.NewWriter(gw)
 	defer tw.Close()
+	defer verifOp("close", filename)
 	outDir := target.OutDir()
 	for _, file := range files {
 		// Any one of these might be a directory, so we have to walk them.
 		if err := fs.Walk(filepath.Join(outDir, file), func(name string, isDir bool) error {
+			verifOp("tar-entry", name)
 			hdr, err := cache.tarHeader(name, outDir)
 			if err != nil {
 				return err
@@ -151,6 +158,7 @@ func (cache *dirCache) tarHeader(file, prefix string) (*tar.Header, error) {
 // ensureStoreReady ensures that the directory containing the given filename exists and any previous file has been removed.
 func (cache *dirCache) ensureStoreReady(filename string) error {
 	dir := filepath.Dir(filename)
+	verifOp("ready", filename)
 	if err := os.MkdirAll(dir, core.DirPermissions); err != nil {
 		return err
 	} else if err := fs.RemoveAll(filename); err != nil {
@@ -167,6 +175,7 @@ func (cache *dirCache) storeFile(target *core.BuildTarget, out, cacheDir string)
 		log.Warning("Failed to setup cache directory: %s", err)
 		return 0
 	}
+	verifOp("link-tree", cachedFile)
 	if err := fs.RecursiveLink(outFile, cachedFile); err != nil {
 		// Cannot hardlink files into the cache, must copy them for reals.
 		log.Warning("Failed to store cache file %s: %s", cachedFile, err)
@@ -198,6 +207,7 @@ func (cache *dirCache) retrieveFiles(target *core.BuildTarget, cacheDir string, 
 		log.Debug("%s: %s doesn't exist in dir cache", target.Label, cacheDir)
 		return false, nil
 	}
+	verifOp("retr-found", cacheDir)
 	cache.markDir(cacheDir, 0)
 	if len(outs) == 0 {
 		return true, nil
